@@ -730,7 +730,14 @@ class hasseb(hid):
         async with self._command_lock:
             times = 2 if command.sendtwice else 1
             for rep in range(times):
-                os.write(self._f, frame.pack_len(2))
+                try:
+                    os.write(self._f, frame.pack_len(2))
+                except OSError:
+                    # The device has failed.  Disconnect, schedule a
+                    # reconnection, and report this command as failed.
+                    self._log.debug("fail on transmit, disconnecting")
+                    self.disconnect(reconnect=True)
+                    raise CommunicationError
             # Earlier commands may have left a response available that
             # we need to ignore.  We're only interested in responses
             # that become available in the future.
